@@ -51,6 +51,8 @@ type KnownFinding struct {
 	Commit    string `json:"commit,omitempty"`
 }
 
+var validatedTraces int
+
 func loadKnown(path string) []KnownFinding {
 	b, err := os.ReadFile(path)
 	if err != nil {
@@ -249,6 +251,34 @@ func checkCmd(args []string) int {
 			fmt.Printf("  counterexample %s at %s %s notes=%v (%s)\n", v.ID, v.Where, v.Msg, v.Notes, how)
 		}
 	}
+	// translation validation: the values of one completed path are replayed natively; every
+	// assertion the executor discharged on that path must hold in the native run as well
+	validated := 0
+	if !*noReplay && violations == 0 {
+		limit := 1
+		if *tier == "thorough" {
+			limit = 4
+		}
+		for _, rr := range results {
+			if validated >= limit || rr.Ex.Witness == nil || rr.Run.Twin || (rr.Run.Arch != "" && rr.Run.Arch != "amd64") {
+				continue
+			}
+			w := rr.Ex.Witness
+			wp := filepath.Join(outDir, fmt.Sprintf("witness_%s.json", rr.Run.Fn))
+			writeCex(wp, id, rr.Run, w)
+			w.Sched, w.Trace = nil, nil
+			_, how := replayNative(*repo, *root, rr.Run, w, wp)
+			logb, _ := os.ReadFile(strings.TrimSuffix(wp, ".json") + ".replay.log")
+			switch {
+			case strings.Contains(string(logb), "VF-FAIL"):
+				inconclusive = append(inconclusive, fmt.Sprintf("%s: translation validation: an assertion discharged by the executor fails in the native run of the same values (%s)", rr.Run.Fn, firstFail(string(logb))))
+			case strings.Contains(string(logb), "VF-DONE"):
+				validated++
+			default:
+				fmt.Printf("  (translation validation of %s not conclusive: %s)\n", rr.Run.Fn, how)
+			}
+		}
+	}
 	// witnesses
 	for _, w := range spec.Witnesses {
 		parts := strings.SplitN(w, ":", 2)
@@ -286,6 +316,7 @@ func checkCmd(args []string) int {
 	for _, rr := range results {
 		exs = append(exs, rr.Ex)
 	}
+	validatedTraces = validated
 	writeEvidence(*root, id, *tier, seed, exs, &spec, time.Since(t0), violations, inconclusive, samples)
 	if violations > 0 {
 		return 1
@@ -310,6 +341,15 @@ func ownsAssertion(prefixes []string, id string) bool {
 		}
 	}
 	return false
+}
+
+func firstFail(log string) string {
+	for _, l := range strings.Split(log, "\n") {
+		if strings.HasPrefix(l, "VF-FAIL") {
+			return l
+		}
+	}
+	return ""
 }
 
 func envOr(k, d string) string {
@@ -421,7 +461,7 @@ func writeEvidence(root, id, tier string, seed int, exs []*sym.Explorer, spec *C
 	cov := map[string]any{
 		"states":                        max(paths, 1),
 		"transitions":                   max(int(steps), 1),
-		"traces_validated_against_impl": 0,
+		"traces_validated_against_impl": validatedTraces + violations,
 		"samples":                       samples,
 		"evaluations":                   max(obligations, 1),
 		"distinct_nontrivial":           distinct,
